@@ -74,6 +74,7 @@ type inst struct {
 	port       int
 	svcCheck   string // "" or status
 	nodeCheck  string // "" or status
+	nid        string // node ID ("" = none): a re-provisioned exporter node keeps its name and changes its ID
 }
 
 type snapshot struct {
@@ -98,12 +99,25 @@ func snapshots() []snapshot {
 	}
 }
 
+// extraSnapshots are sent for one (peer, service) only: a node that carries an ID and later another one, and a node
+// whose name has upper-case letters (node names are matched case-insensitively by the catalog).
+func extraSnapshots() []snapshot {
+	return []snapshot{
+		// (n4 is never sent with a serf check: the catalog refuses to move a node name to another ID while the node that
+		// holds it - in the same peer's catalog - is healthy; a healthy *local* n4 exists and must not matter)
+		{"n4#A/1", []inst{{node: "n4", addr: "10.1.0.4", id: "1", port: 80, nid: "aaaaaaaa-1111-1111-1111-00000000000a"}}},
+		{"n4#B/1", []inst{{node: "n4", addr: "10.1.0.4", id: "1", port: 80, nid: "aaaaaaaa-1111-1111-1111-00000000000b"}}},
+		{"Node-3/1", []inst{{node: "Node-3", addr: "10.1.0.3", id: "1", port: 80, svcCheck: "passing"}}},
+		{"Node-3/1:port81", []inst{{node: "Node-3", addr: "10.1.0.3", id: "1", port: 81, svcCheck: "passing"}}},
+	}
+}
+
 func (s snapshot) csn(service string) structs.CheckServiceNodes {
 	var out structs.CheckServiceNodes
 	for _, i := range s.insts {
 		sid := service + "-" + i.id
 		n := structs.CheckServiceNode{
-			Node:    &structs.Node{Node: i.node, Address: i.addr, Datacenter: "remote-dc", Partition: ""},
+			Node:    &structs.Node{ID: types.NodeID(i.nid), Node: i.node, Address: i.addr, Datacenter: "remote-dc", Partition: ""},
 			Service: &structs.NodeService{ID: sid, Service: service, Port: i.port, Weights: &structs.Weights{Passing: 1, Warning: 1}, EnterpriseMeta: *structs.DefaultEnterpriseMetaInDefaultPartition()},
 		}
 		if i.nodeCheck != "" {
@@ -326,6 +340,11 @@ func Run(c *ev.Ctx) {
 				}
 				alpha = append(alpha, mkUpsert(p, s, sn))
 			}
+			if p == "p1" && s == "a" {
+				for _, sn := range extraSnapshots() {
+					alpha = append(alpha, mkUpsert(p, s, sn))
+				}
+			}
 		}
 		for _, l := range [][]string{{}, {"a"}, {"b"}, {"a", "b"}} {
 			alpha = append(alpha, mkList(p, l))
@@ -343,6 +362,7 @@ func Run(c *ev.Ctx) {
 	// seeds: local rows (and other-peer rows) that collide by name with what is imported
 	n1 := cmdlib.NodeSpec{Node: "n1", ID: "id1", Addr: "10.0.0.1"}
 	n2 := cmdlib.NodeSpec{Node: "n2", Addr: "10.0.0.2"}
+	n4 := cmdlib.NodeSpec{Node: "n4", ID: "id2", Addr: "10.0.0.4"}
 	la := cmdlib.SvcSpec{ID: "a-1", Name: "a", Port: 8080}
 	lc := cmdlib.SvcSpec{ID: "c-1", Name: "c", Port: 8081}
 	base := []world.Op{
@@ -350,6 +370,7 @@ func Run(c *ev.Ctx) {
 		cmdlib.RegNode(n1), cmdlib.RegNode(n2), cmdlib.RegService(n1, la), cmdlib.RegService(n2, lc),
 		cmdlib.RegCheck(n1, cmdlib.CheckSpec{ID: "serfHealth", Status: "passing"}), cmdlib.RegCheck(n1, cmdlib.CheckSpec{ID: "check:a-1", Status: "critical", ServiceID: "a-1"}),
 		cmdlib.RegCheck(n2, cmdlib.CheckSpec{ID: "serfHealth", Status: "critical"}),
+		cmdlib.RegNode(n4), cmdlib.RegCheck(n4, cmdlib.CheckSpec{ID: "serfHealth", Status: "passing"}),
 	}
 	p2n1 := cmdlib.NodeSpec{Node: "n1", Addr: "10.2.0.1", Peer: "p2"}
 	withP2 := append(append([]world.Op{}, base...),
